@@ -263,9 +263,10 @@ func checkC15(c *Ctx) (int, error) {
 				stride = len(b)/limit + 1
 			}
 			for k := 0; k < len(b); k += stride {
-				src := RSource{Kind: []string{"plain", "bufio", "bufio"}[k%3], BufSize: []int{4096, 16, 4096}[k%3], Chunks: chunkSchedules[(k+i)%len(chunkSchedules)], FailAt: k, FailData: k%2 == 1, Released: -1}
+				src := RSource{Kind: []string{"plain", "bufio", "bufio"}[k%3], BufSize: []int{4096, 16, 4096}[k%3], Chunks: chunkSchedules[(k+i)%len(chunkSchedules)], FailAt: k, FailData: k%2 == 1, Released: -1,
+					ErrKind: errKinds[(k/2+i)%len(errKinds)]}
 				cs := &RCase{ID: fmt.Sprintf("C15-%d", id), Kind: kind, Arch: c.Levels[id%len(c.Levels)],
-					Tag:  fmt.Sprintf("%s-%d|fail@%d/%d|%s|data=%v", kind, i, k, len(b), srcTag(src), src.FailData),
+					Tag:  fmt.Sprintf("%s-%d|fail@%d/%d|%s|data=%v|err=%s", kind, i, k, len(b), srcTag(src), src.FailData, src.ErrKind),
 					Segs: []RSeg{{Stream: st, Src: src, Reads: [][]int{{1}, {4096}, {7}}[k%3], Multi: true}}}
 				id++
 				cases = append(cases, cs)
@@ -273,7 +274,7 @@ func checkC15(c *Ctx) (int, error) {
 			}
 		}
 	}
-	c.ev.Rule = fmt.Sprintf("%d streams per kind (flate, gzip incl. two members, zlib); the source fails after k bytes for every k (stride > 1 above %d bytes), alternating error-alone / error-with-data, sources {plain, bufio16, bufio4096}, Read sizes {1,7,4096}, rotating acceleration levels; distinct by (stream, k, source)", n, limit)
+	c.ev.Rule = fmt.Sprintf("%d streams per kind (flate, gzip incl. two members, zlib); the source fails after k bytes for every k (stride > 1 above %d bytes), alternating error-alone / error-with-data, error values {plain, wrapping io.EOF, wrapping io.ErrUnexpectedEOF, wrapping bufio.ErrBufferFull, claiming to be io.EOF through an Is method} compared by identity, sources {plain, bufio16, bufio4096}, Read sizes {1,7,4096}, rotating acceleration levels; distinct by (stream, k, source)", n, limit)
 	c.ev.Exhaustive = true
 	for _, cs := range spread(cases) {
 		c.ev.sample(map[string]interface{}{"case": cs.Tag})
